@@ -8,7 +8,7 @@ node straight from the Python AST. We build a CFG, check it, and return a
 import ast
 import sys
 from dataclasses import dataclass, replace
-from typing import TYPE_CHECKING, ClassVar, cast
+from typing import TYPE_CHECKING, Any, ClassVar, cast
 
 from guppylang_internals.ast_util import return_nodes_in_ast, with_loc
 from guppylang_internals.cfg.bb import BB
@@ -47,6 +47,10 @@ if sys.version_info >= (3, 12):
 
 if TYPE_CHECKING:
     from guppylang_internals.tys.param import Parameter
+
+
+#: Marker for a name that had no binding in a frame
+_UNBOUND: Any = object()
 
 
 @dataclass(frozen=True)
@@ -207,6 +211,7 @@ def check_nested_func_def(
     def_id = DefId.fresh()
     globals = ctx.globals
 
+    shadowed: tuple[str, Any] | None = None
     # Check if the body contains a free (recursive) occurrence of the function name.
     # By checking if the name is free at the entry BB, we avoid false positives when
     # a user shadows the name with a local variable
@@ -219,12 +224,25 @@ def check_nested_func_def(
             func = ParsedFunctionDef(def_id, func_def.name, func_def, func_ty, None)
             DEF_STORE.register_def(func, None)
             ENGINE.parsed[def_id] = func
+            # Make the name resolvable while the body is checked. The frame locals can
+            # be the namespace of the user's module, so the binding is undone below.
+            shadowed = (func_def.name, globals.f_locals.get(func_def.name, _UNBOUND))
             globals.f_locals[func_def.name] = GuppyDefinition(func)
         else:
             # Otherwise, we treat it like a local name
             inputs.append(Variable(func_def.name, func_def.ty, func_def))
 
-    checked_cfg = check_cfg(cfg, inputs, func_ty.output, {}, func_def.name, globals)
+    try:
+        checked_cfg = check_cfg(
+            cfg, inputs, func_ty.output, {}, func_def.name, globals
+        )
+    finally:
+        if shadowed is not None:
+            name, previous = shadowed
+            if previous is _UNBOUND:
+                globals.f_locals.pop(name, None)
+            else:
+                globals.f_locals[name] = previous
     checked_def = CheckedNestedFunctionDef(
         def_id,
         checked_cfg,
